@@ -54,6 +54,10 @@ type summary struct {
 	SyncUses     []string `json:"sync_uses"`
 	ChanUses     int      `json:"chan_uses"`
 	SelectStmts  int      `json:"select_statements"`
+	LockSites    int      `json:"lock_sites_rewritten"`
+	OnceSites    int      `json:"once_sites_rewritten"`
+	PoolSites    int      `json:"pool_sites_rewritten"`
+	Unmodelled   []string `json:"unmodelled_blocking"`
 	LoopVarWarns []string `json:"loopvar_capture_warnings"`
 }
 
@@ -107,6 +111,7 @@ func main() {
 		Types: map[ast.Expr]types.TypeAndValue{},
 		Uses:  map[*ast.Ident]types.Object{},
 		Defs:  map[*ast.Ident]types.Object{},
+		Selections: map[*ast.SelectorExpr]*types.Selection{},
 	}
 	conf := types.Config{Importer: importer.ForCompiler(fset, "source", nil)}
 	pkg, err := conf.Check(bp.ImportPath, fset, asts, info)
@@ -216,6 +221,11 @@ func newSite(kind string, p token.Pos, fn string) int {
 	return id
 }
 
+func isTimeAfter(c *ast.CallExpr) bool {
+	_, ok := isPkgCall(c.Fun, "time", "After")
+	return ok
+}
+
 func isPkgCall(e ast.Expr, pkgPath, name string) (*ast.SelectorExpr, bool) {
 	sel, ok := e.(*ast.SelectorExpr)
 	if !ok || sel.Sel.Name != name {
@@ -230,6 +240,30 @@ func isPkgCall(e ast.Expr, pkgPath, name string) (*ast.SelectorExpr, bool) {
 		return nil, false
 	}
 	return sel, true
+}
+
+// syncMethod names the sync method a selector resolves to ("Mutex.Lock", "Once.Do", ...).
+func syncMethod(sel *ast.SelectorExpr) string {
+	se := info.Selections[sel]
+	if se == nil || se.Kind() != types.MethodVal {
+		return ""
+	}
+	f, ok := se.Obj().(*types.Func)
+	if !ok || f.Pkg() == nil || f.Pkg().Path() != "sync" {
+		return ""
+	}
+	sig, ok := f.Type().(*types.Signature)
+	if !ok || sig.Recv() == nil {
+		return ""
+	}
+	rt := sig.Recv().Type()
+	if p, ok := rt.(*types.Pointer); ok {
+		rt = p.Elem()
+	}
+	if n, ok := rt.(*types.Named); ok {
+		return n.Obj().Name() + "." + f.Name()
+	}
+	return ""
 }
 
 func isMap(e ast.Expr) bool {
@@ -323,6 +357,7 @@ func rewriteFile(fc *fileCtx, pkg *types.Package) {
 			sum.ChanUses++
 		case *ast.SelectStmt:
 			sum.SelectStmts++
+			sum.Unmodelled = append(sum.Unmodelled, "select")
 		case *ast.ForStmt:
 			id := newSite("loop", x.Body.Lbrace, curFunc)
 			fc.insert(x.Body.Lbrace+1, fmt.Sprintf("verifsim.Yield(%d);", id))
@@ -337,14 +372,19 @@ func rewriteFile(fc *fileCtx, pkg *types.Package) {
 			}
 		case *ast.GoStmt:
 			sum.GoStmts++
+			sum.Unmodelled = append(sum.Unmodelled, "go statement")
 			// go f(a, b)  ->  verifsim.Go(func() { f(a, b) })
 			fc.replace(x.Go, x.Go+2, "verifsim.Go(func() {")
 			fc.insert(x.Call.End(), "})")
 		case *ast.SendStmt:
 			sum.ChanUses++
+			sum.Unmodelled = append(sum.Unmodelled, "channel send")
 		case *ast.UnaryExpr:
 			if x.Op == token.ARROW {
 				sum.ChanUses++
+				if c, ok := x.X.(*ast.CallExpr); !ok || !isTimeAfter(c) {
+					sum.Unmodelled = append(sum.Unmodelled, "channel receive")
+				}
 			}
 		case *ast.CallExpr:
 			if sel, ok := isPkgCall(x.Fun, "time", "Sleep"); ok {
@@ -367,6 +407,50 @@ func rewriteFile(fc *fileCtx, pkg *types.Package) {
 				fc.replace(sel.Pos(), sel.End(), "verifsim.Stat")
 				removed["os"]++
 				sum.DiskSites++
+			} else if sel, ok := x.Fun.(*ast.SelectorExpr); ok && syncMethod(sel) != "" {
+				switch m := syncMethod(sel); m {
+				case "Mutex.Lock", "RWMutex.Lock":
+					// X.Lock()  ->  verifsim.SimLock(X.Lock, X.TryLock)
+					recv := string(fc.src[fc.off(sel.X.Pos()):fc.off(sel.X.End())])
+					fc.replace(x.Pos(), x.End(), "verifsim.SimLock("+recv+".Lock, "+recv+".TryLock)")
+					sum.LockSites++
+				case "RWMutex.RLock":
+					recv := string(fc.src[fc.off(sel.X.Pos()):fc.off(sel.X.End())])
+					fc.replace(x.Pos(), x.End(), "verifsim.SimLock("+recv+".RLock, "+recv+".TryRLock)")
+					sum.LockSites++
+				case "Once.Do":
+					if len(x.Args) == 1 {
+						// X.Do(f)  ->  verifsim.SimOnce(&(X), f); f stays in place (it may carry edits of its own)
+						recv := string(fc.src[fc.off(sel.X.Pos()):fc.off(sel.X.End())])
+						amp := "&"
+						if tv, ok := info.Types[sel.X]; ok {
+							if _, isPtr := tv.Type.Underlying().(*types.Pointer); isPtr {
+								amp = ""
+							}
+						}
+						fc.replace(x.Pos(), x.Lparen+1, "verifsim.SimOnce("+amp+"("+recv+"), ")
+						sum.OnceSites++
+					}
+				case "Pool.Get", "Pool.Put":
+					// X.Get() -> verifsim.PoolGet(&(X)) ; X.Put(v) -> verifsim.PoolPut(&(X), v)
+					recv := string(fc.src[fc.off(sel.X.Pos()):fc.off(sel.X.End())])
+					amp := "&"
+					if tv, ok := info.Types[sel.X]; ok {
+						if _, isPtr := tv.Type.Underlying().(*types.Pointer); isPtr {
+							amp = ""
+						}
+					}
+					fn := "verifsim.PoolGet("
+					tail := ""
+					if m == "Pool.Put" {
+						fn = "verifsim.PoolPut("
+						tail = ", "
+					}
+					fc.replace(x.Pos(), x.Lparen+1, fn+amp+"("+recv+")"+tail)
+					sum.PoolSites++
+				case "WaitGroup.Wait", "Cond.Wait":
+					sum.Unmodelled = append(sum.Unmodelled, m)
+				}
 			} else if sel, ok := x.Fun.(*ast.SelectorExpr); ok && sel.Sel.Name == "MapKeys" && len(x.Args) == 0 {
 				if tv, ok := info.Types[sel.X]; ok && tv.Type != nil && tv.Type.String() == "reflect.Value" {
 					mid := newSite("mapkeys", x.Pos(), curFunc)
